@@ -26,10 +26,14 @@ def flowdircode():
     src = open(os.path.join(REPO, 'src/hydrodiy/gis/grid.py')).read()
     for n in ast.parse(src).body:
         if isinstance(n, ast.Assign) and any(isinstance(t, ast.Name) and t.id == 'FLOWDIRCODE' for t in n.targets):
-            call = n.value
-            lst = call.args[0]
-            rows = ast.literal_eval(lst)
-            return [int(v) for row in rows for v in row]
+            # the first list-of-lists literal inside the right-hand side (np.array([[...]]).astype(...))
+            for sub in ast.walk(n.value):
+                if isinstance(sub, ast.List) and sub.elts and all(isinstance(e, ast.List) for e in sub.elts):
+                    rows = ast.literal_eval(sub)
+                    vals = [int(v) for row in rows for v in row]
+                    if len(vals) != 9:
+                        raise RuntimeError('FLOWDIRCODE is not 3x3')
+                    return vals
     raise RuntimeError('FLOWDIRCODE not found in grid.py')
 
 
@@ -105,4 +109,52 @@ def gen_neighbours(rng, tier):
     for (nr, nc, _, _, _) in small_grids(rng, tier)[::5]:
         for c in list(range(-1, nr * nc + 1)) + [10 ** 9]:
             out.append([nr, nc, c, [7] * 9])
+    return out
+
+
+# ----------------------------------------------------------------------------- flow-direction grids
+def fdc_consts():
+    return {'FDC%d' % k: v for k, v in enumerate(flowdircode())}
+
+
+def flow_grids(rng, tier, max_cells=6, n_random=40):
+    """(nrows, ncols, flowdir list): exhaustive over tiny grids and a subset of codes, random beyond"""
+    codes = flowdircode()
+    alphabet = [c for c in codes if c != 0] + [0, 3]          # eight ESRI codes, sink, one invalid code
+    out = []
+    for (nr, nc) in [(1, 1), (1, 2), (2, 1), (1, 3), (3, 1), (2, 2)]:
+        n = nr * nc
+        if len(alphabet) ** n <= 1200:
+            for combo in itertools.product(alphabet, repeat=n):
+                out.append((nr, nc, list(combo)))
+        else:
+            for _ in range(300 if tier == 'quick' else 1500):
+                out.append((nr, nc, [rng.choice(alphabet) for _ in range(n)]))
+    dims = [(2, 3), (3, 2), (3, 3), (2, 4), (4, 2), (3, 4), (4, 4), (1, 6), (5, 5)]
+    for _ in range(n_random if tier == 'quick' else n_random * 10):
+        nr, nc = rng.choice(dims)
+        out.append((nr, nc, [rng.choice(alphabet) for _ in range(nr * nc)]))
+    return out
+
+
+def gen_downstream(rng, tier):
+    fdc = flowdircode(); out = []
+    for (nr, nc, fd) in flow_grids(rng, tier)[::3]:
+        cells = list(range(nr * nc))
+        out.append([nr, nc, fdc, fd, len(cells), cells, [7] * len(cells)])
+    out.append([2, 2, fdc, [1, 1, 1, 1], 3, [0, 4, 1], [7, 7, 7]])
+    out.append([2, 2, fdc, [1, 1, 1, 1], 2, [-1, 0], [7, 7]])
+    out.append([2, 2, fdc, [1, 1, 1, 1], 0, [], []])
+    out.append([2, 2, [5, 5, 5, 5, 5, 5, 5, 5, 5], [5, 1, 0, 5], 4, [0, 1, 2, 3], [7] * 4])
+    return out
+
+
+def gen_upstream(rng, tier):
+    fdc = flowdircode(); out = []
+    for (nr, nc, fd) in flow_grids(rng, tier)[::3]:
+        cells = list(range(nr * nc))
+        out.append([nr, nc, fdc, fd, len(cells), cells, [7] * (9 * len(cells))])
+    out.append([2, 2, fdc, [1, 1, 1, 1], 3, [0, 4, 1], [7] * 27])
+    out.append([2, 2, fdc, [1, 1, 1, 1], 0, [], []])
+    out.append([2, 2, [5, 5, 5, 5, 5, 5, 5, 5, 5], [5, 1, 0, 5], 4, [0, 1, 2, 3], [7] * 36])
     return out
